@@ -49,7 +49,8 @@ Record inv (st : state) : Prop := mkInv {
   i_sub : forall s j, sub_pc (kp st s j) = true -> ret (subs st s) = false /\ j = 0;
   i_j : forall s j, j <> 0 -> kp st s j = KIdle \/ in_close (kp st s j) = true;
   i_send : forall p s vis, pp st p = PSend s vis -> in_map (subs st s) = true;
-  i_nil : forall s j, kp st s j = KRecv true -> cleared (subs st s) = true
+  i_nil : forall s j, kp st s j = KRecv true -> cleared (subs st s) = true;
+  i_ps : forall p, holdp (pp st p) = true -> ps st p <> []
 }.
 
 Lemma inv_init : forall n kscr pscr, inv (init n kscr pscr).
@@ -302,6 +303,15 @@ Proof.
   all: try (inversion Hq; subst; clear Hq); fin I; auto.
 Qed.
 
+Lemma step_ps : forall st t l st' br, inv st -> step VFixed st t l = Some (st', br) ->
+  forall p0, holdp (pp st' p0) = true -> ps st' p0 <> [].
+Proof.
+  intros st t l st' br I H p0. pose proof (i_ps _ I p0) as Hn.
+  destruct t as [p | s j]; step_inv H; simp; eqb_tac; simp; intros Hq;
+    try discriminate; try congruence; auto.
+  all: try (apply Hn; rw_pcs; reflexivity).
+Qed.
+
 Theorem inv_step : forall st t l st' br, inv st -> step VFixed st t l = Some (st', br) -> inv st'.
 Proof.
   intros st t l st' br I H. constructor.
@@ -319,6 +329,7 @@ Proof.
   - eapply step_j; eauto.
   - eapply step_send; eauto.
   - eapply step_nil; eauto.
+  - eapply step_ps; eauto.
 Qed.
 
 Theorem inv_reachable : forall n kscr pscr st, reachable VFixed (init n kscr pscr) st -> inv st.
@@ -566,3 +577,257 @@ Proof.
   - destruct H as [H | H]; eqb_tac; auto; congruence.
   - destruct H as [H | H]; eqb_tac; auto; congruence.
 Qed.
+
+(* ---------- what a global deadlock can look like ---------- *)
+
+Definition stuck (st : state) : Prop := forall t l, step VFixed st t l = None.
+
+Lemma all_vis_false : forall st vis n, all_vis st vis n = false ->
+  exists s, s < n /\ in_map (subs st s) = true /\ memb s vis = false.
+Proof.
+  induction n; cbn; intros H; [discriminate|].
+  apply andb_false_iff in H. destruct H as [H | H].
+  - apply orb_false_iff in H. destruct H as [H1 H2]. apply negb_false_iff in H1.
+    exists n. repeat split; auto.
+  - destruct (IHn H) as (s & L & A & B). exists s. repeat split; auto.
+Qed.
+
+Lemma idle_enabled : forall st s j a r, bad st = false -> kp st s j = KIdle -> ks st s j = a :: r ->
+  (tmu st = None \/ ret (subs st s) = true) -> smu (subs st s) = None ->
+  step VFixed st (TSub s j) L0 <> None.
+Proof.
+  intros st s j a r Hb Hk Hs Ht Hm. unfold step, sstep. cbv zeta. rewrite Hb, Hk, Hs, Hm. cbn [is_none].
+  destruct a.
+  - destruct Ht as [Ht | Ht]; rewrite Ht; cbn [is_none negb andb];
+      destruct (j =? 0), (ret (subs st s)), (s <? nsub st); cbn; discriminate.
+  - destruct (j =? 0), (ret (subs st s)), (cleared (subs st s)); cbn; discriminate.
+  - discriminate.
+  - destruct (ret (subs st s)); discriminate.
+Qed.
+
+Lemma close_enabled : forall st s j x, inv st -> kp st s j = KClose x -> (x = XLockT -> tmu st = None) ->
+  step VFixed st (TSub s j) L0 <> None.
+Proof.
+  intros st s j x I Hk Ht. destruct (x_step st s j x I Hk Ht) as (st' & br & S & _). congruence.
+Qed.
+
+(* A state in which NO goroutine can move is one of exactly two kinds:
+   (a) quiescent: Topic.mu is free, every publisher has finished, and every subscription goroutine has
+       either finished its script or sits in Next waiting for an event (nothing to receive, its
+       context not cancelled) — nobody is stuck inside Publish, Subscribe or Close, nobody waits for a
+       mutex;
+   (b) the documented blocking Publish: a publisher holds Topic.mu at its select for a subscription s
+       that is registered, whose done channel is NOT closed, that nobody is closing, and ALL of whose
+       goroutines have finished their scripts — i.e. a *Subscription that was abandoned without
+       Close(), against the contract "Subscription MUST always be closed with Close()".
+   In particular there is no deadlock that involves a goroutine inside Close, for any number of
+   publishers, subscriptions and goroutines and any interleaving. *)
+Theorem stuck_char : forall st, inv st -> stuck st ->
+  (tmu st = None /\ (forall p, pp st p = PIdle /\ ps st p = []) /\
+   (forall s j, (kp st s j = KIdle /\ ks st s j = []) \/ (exists b, kp st s j = KRecv b))) \/
+  (exists p s vis, tmu st = Some (TPub p) /\ pp st p = PSend s vis /\
+     in_map (subs st s) = true /\ done (subs st s) = false /\ smu (subs st s) = None /\
+     (forall j, kp st s j = KIdle /\ ks st s j = [])).
+Proof.
+  intros st I St. pose proof (i_bad _ I) as Hb.
+  (* nobody inside Close can be blocked unless it waits for a held Topic.mu *)
+  assert (Hcl : forall s j x, kp st s j = KClose x -> x = XLockT /\ tmu st <> None).
+  { intros s j x Hk. destruct x; try (exfalso; eapply close_enabled; eauto; discriminate).
+    split; auto. intros Ht. eapply close_enabled; eauto. }
+  (* a held Subscription.mu with Topic.mu free is impossible *)
+  assert (Hsm : forall s, tmu st = None -> smu (subs st s) = None).
+  { intros s Ht. destruct (smu (subs st s)) as [j'|] eqn:E; auto.
+    pose proof (i_smu2 _ I _ _ E) as Hc. destruct (kp st s j') eqn:Ek; try discriminate.
+    destruct (Hcl _ _ _ Ek). congruence. }
+  destruct (tmu st) as [[p | s j]|] eqn:Et.
+  - (* a publisher holds Topic.mu *)
+    right. pose proof (i_tmu2 _ I _ Et) as Hh. cbn in Hh.
+    destruct (pp st p) as [|vis|s vis|] eqn:Ep; try discriminate.
+    + exfalso. destruct (all_vis st vis (nsub st)) eqn:Ea.
+      * specialize (St (TPub p) L0). unfold step, pstep in St. rewrite Hb, Ep, Ea in St. discriminate.
+      * destruct (all_vis_false _ _ _ Ea) as (s & L & A & B).
+        specialize (St (TPub p) (LTgt s)). unfold step, pstep in St. rewrite Hb, Ep, A, B in St.
+        apply Nat.ltb_lt in L. rewrite L in St. discriminate.
+    + pose proof (i_send _ I _ _ _ Ep) as Hm.
+      assert (Hd : done (subs st s) = false).
+      { destruct (done (subs st s)) eqn:E; auto.
+        pose proof (pub_skip st p s vis Hb Ep E) as Hs. rewrite St in Hs. discriminate. }
+      assert (Hs : smu (subs st s) = None).
+      { destruct (smu (subs st s)) as [j'|] eqn:E; auto.
+        pose proof (i_smu2 _ I _ _ E) as Hc. destruct (kp st s j') eqn:Ek; try discriminate.
+        destruct (Hcl _ _ _ Ek) as [-> _]. pose proof (i_pc _ I _ _ _ Ek) as Hx. cbn in Hx.
+        destruct Hx. congruence. }
+      assert (Hr : ret (subs st s) = true).
+      { destruct (ret (subs st s)) eqn:E; auto. destruct (i_fresh _ I _ E) as (_ & _ & _ & _ & Hu & _).
+        specialize (Hu Hm). assert (Hh2 : hold_t st (TSub s 0) = true) by (cbn; rewrite Hu; reflexivity).
+        apply (i_tmu1 _ I) in Hh2. congruence. }
+      exists p, s, vis. repeat split; auto.
+      all: destruct (kp st s j) eqn:Ek.
+      all: try (destruct (ks st s j) eqn:Es; auto; exfalso;
+                eapply (idle_enabled st s j); eauto; fail).
+      all: try (exfalso; assert (Hh2 : hold_t st (TSub s j) = true) by (cbn; rewrite Ek; reflexivity);
+                apply (i_tmu1 _ I) in Hh2; congruence).
+      all: try (destruct (Hcl _ _ _ Ek) as [-> _]; pose proof (i_pc _ I _ _ _ Ek) as Hx; cbn in Hx;
+                destruct Hx; congruence).
+      (* (s,j) blocked in Next *)
+      all: exfalso.
+      all: assert (j = 0) by (destruct (Nat.eq_dec j 0); auto;
+                              destruct (i_j _ I s j n) as [E | E]; rewrite Ek in E; discriminate); subst.
+      all: destruct isnil.
+      all: try (pose proof (i_nil _ I _ _ Ek) as Hc; destruct (i_clr _ I _ Hc); congruence).
+      all: destruct (ps st p) as [|v rest] eqn:Eps.
+      all: try (destruct (cap1 (subs st s)) eqn:Ec;
+        [ destruct (buf (subs st s)) eqn:Eb;
+          [ specialize (St (TPub p) LSend); unfold step, pstep in St; cbv zeta in St;
+            rewrite Hb, Ep, Eps, (i_map _ I _ Hm), Ec, Eb in St; discriminate
+          | specialize (St (TSub s 0) LBuf); unfold step, sstep in St; cbv zeta in St;
+            rewrite Hb, Ek, Eb in St; discriminate ]
+        | specialize (St (TPub p) LSend); unfold step, pstep in St; cbv zeta in St;
+          rewrite Hb, Ep, Eps, (i_map _ I _ Hm), Ec, Ek in St; discriminate ]).
+      all: apply (i_ps _ I p); [rewrite Ep; reflexivity | exact Eps].
+    + exfalso. specialize (St (TPub p) L0). unfold step, pstep in St. rewrite Hb, Ep in St. discriminate.
+  - (* a subscription goroutine holds Topic.mu: it is inside Subscribe or unsubscribeID, never blocked *)
+    exfalso. pose proof (i_tmu2 _ I _ Et) as Hh. cbn in Hh.
+    destruct (kp st s j) as [| b | | b | x] eqn:Ek; try discriminate.
+    + specialize (St (TSub s j) L0). unfold step, sstep in St. rewrite Hb, Ek in St. discriminate.
+    + specialize (St (TSub s j) L0). unfold step, sstep in St. rewrite Hb, Ek in St. discriminate.
+    + destruct (Hcl _ _ _ Ek) as [-> _]. discriminate.
+  - (* Topic.mu is free *)
+    left. split; auto. split.
+    + intros p. destruct (pp st p) eqn:Ep.
+      2-4: exfalso; assert (Hh2 : hold_t st (TPub p) = true) by (cbn; rewrite Ep; reflexivity);
+           apply (i_tmu1 _ I) in Hh2; congruence.
+      split; auto. destruct (ps st p) eqn:Eps; auto. exfalso.
+      specialize (St (TPub p) L0). unfold step, pstep in St. rewrite Hb, Ep, Eps, Et in St. discriminate.
+    + intros s j. destruct (kp st s j) as [| b | | b | x] eqn:Ek.
+      * left. split; auto. destruct (ks st s j) eqn:Es; auto. exfalso.
+        eapply (idle_enabled st s j); eauto.
+      * exfalso; assert (Hh2 : hold_t st (TSub s j) = true) by (cbn; rewrite Ek; reflexivity).
+        apply (i_tmu1 _ I) in Hh2; congruence.
+      * exfalso; assert (Hh2 : hold_t st (TSub s j) = true) by (cbn; rewrite Ek; reflexivity).
+        apply (i_tmu1 _ I) in Hh2; congruence.
+      * right. eauto.
+      * exfalso. destruct (Hcl _ _ _ Ek) as [_ Hn]. congruence.
+Qed.
+
+(* ---------- regression: the protocol before commit 5971b93 deadlocks ---------- *)
+
+(* one subscription whose owner subscribes and then closes without receiving; one publisher *)
+Definition dl_kscr (s j : nat) : list kact :=
+  match s, j with 0, 0 => [ASub false; AClose] | _, _ => [] end.
+Definition dl_pscr (p : nat) : list N := match p with 0 => [5%N] | _ => [] end.
+Definition dl_init : state := init 1 dl_kscr dl_pscr.
+Definition dl_sched : list (tid * lbl) :=
+  [(TSub 0 0, L0); (TSub 0 0, L0); (TSub 0 0, L0);      (* Subscribe(false) *)
+   (TPub 0, L0); (TPub 0, LTgt 0);                      (* Publish: lock, reach the send to subscription 0 *)
+   (TSub 0 0, L0); (TSub 0 0, L0)].                     (* Close: lock s.mu, s.topic != nil, go to unsubscribeID *)
+
+Theorem prefix_deadlock :
+  exists st, run VPrefix dl_sched dl_init = Some st /\
+    tmu st = Some (TPub 0) /\ pp st 0 = PSend 0 [] /\       (* publisher blocked in send, holding Topic.mu *)
+    kp st 0 0 = KClose XLockT /\                            (* the addressed subscriber inside Close, waiting for Topic.mu *)
+    bad st = false /\
+    forall t l, step VPrefix st t l = None.                 (* and nothing can ever move again *)
+Proof.
+  eexists. split; [vm_compute; reflexivity|].
+  repeat split.
+  intros t l. destruct t as [[|p] | [|s] [|j]]; destruct l; reflexivity.
+Qed.
+
+(* the same scenario under the current protocol runs to completion: Close closes done, the publisher
+   takes the done case, both finish *)
+Definition dl_sched_fixed : list (tid * lbl) :=
+  dl_sched ++ [(TSub 0 0, L0);                          (* close(done) *)
+               (TPub 0, LSkip); (TPub 0, L0); (TPub 0, L0);   (* done case; range exhausted; unlock *)
+               (TSub 0 0, L0); (TSub 0 0, L0); (TSub 0 0, L0); (TSub 0 0, L0); (TSub 0 0, L0)].
+Theorem fixed_scenario_completes :
+  exists st, run VFixed dl_sched_fixed dl_init = Some st /\ bad st = false /\ tmu st = None /\
+    pending st (TPub 0) = false /\ pending st (TSub 0 0) = false /\
+    cleared (subs st 0) = true /\ got (subs st 0) = [] /\
+    forall t l, step VFixed st t l = None.
+Proof.
+  eexists. split; [vm_compute; reflexivity|].
+  repeat split.
+  intros t l. destruct t as [[|p] | [|s] [|j]]; destruct l; reflexivity.
+Qed.
+
+(* ---------- the same facts, stated over reachable states (what Props/C17.v quotes) ---------- *)
+
+Definition topic_reach (st : state) : Prop := exists n kscr pscr, reachable VFixed (init n kscr pscr) st.
+
+Lemma reach_inv : forall st, topic_reach st -> inv st.
+Proof. intros st (n & k & p & R). eapply inv_reachable; eauto. Qed.
+
+Theorem topic_no_wedge : forall st, topic_reach st ->
+  (* (1) a publisher at its select for s is released by ANY goroutine that is inside Close of s *)
+  (forall p s vis j x, pp st p = PSend s vis -> kp st s j = KClose x ->
+     exists sched st', length sched <= 3 /\ only [TPub p; TSub s j] sched /\
+       run VFixed sched st = Some st' /\ pp st' p = PLoop (s :: vis) /\ bad st' = false) /\
+  (* (2) Close finishes on its own as soon as Topic.mu is free (or already its own) *)
+  (forall s j x, kp st s j = KClose x -> (tmu st = None \/ tmu st = Some (TSub s j)) ->
+     exists m st', m <= 7 /\ run VFixed (repeat (TSub s j, L0) m) st = Some st' /\
+       kp st' s j = KIdle /\ cleared (subs st' s) = true /\ smu (subs st' s) = None /\ bad st' = false) /\
+  (* (3) inside Close only the wait for Topic.mu can block; inside Subscribe/unsubscribeID nothing can *)
+  (forall s j x, kp st s j = KClose x -> (x = XLockT -> tmu st = None) ->
+     exists st' br, step VFixed st (TSub s j) L0 = Some (st', br)).
+Proof.
+  intros st R. pose proof (reach_inv _ R) as I. split; [|split].
+  - intros p s vis j x Hp Hk.
+    destruct (pub_released st p s vis j x I Hp Hk) as (sched & st' & A & B & C & D & E).
+    exists sched, st'. repeat split; auto. apply (i_bad _ E).
+  - intros s j x Hk Ht.
+    destruct (close_completes (xrank x) st s j x (le_n _) I Hk Ht) as (m & st' & A & B & C & D & E & F).
+    exists m, st'. repeat split; auto. destruct x; cbn in A; lia. apply (i_bad _ F).
+  - intros s j x Hk Ht. destruct (x_step st s j x I Hk Ht) as (st' & br & S & _). eauto.
+Qed.
+
+Theorem topic_stuck_char : forall st, topic_reach st -> stuck st ->
+  (tmu st = None /\ (forall p, pp st p = PIdle /\ ps st p = []) /\
+   (forall s j, (kp st s j = KIdle /\ ks st s j = []) \/ (exists b, kp st s j = KRecv b))) \/
+  (exists p s vis, tmu st = Some (TPub p) /\ pp st p = PSend s vis /\
+     in_map (subs st s) = true /\ done (subs st s) = false /\ smu (subs st s) = None /\
+     (forall j, kp st s j = KIdle /\ ks st s j = [])).
+Proof. intros st R. apply stuck_char. apply reach_inv; auto. Qed.
+
+Theorem topic_no_panic : forall st, topic_reach st ->
+  bad st = false /\
+  forall t l st' br, step VFixed st t l = Some (st', br) ->
+    bad st' = false /\ br <> 9%N /\ br <> 24%N /\ br <> 27%N.
+Proof.
+  intros st R. pose proof (reach_inv _ R) as I. split; [apply (i_bad _ I)|].
+  intros t l st' br S. split; [eapply step_bad; eauto | eapply no_panic_branch; eauto].
+Qed.
+
+Theorem topic_close_idempotent : forall st s j r, topic_reach st ->
+  kp st s j = KIdle -> ks st s j = AClose :: r ->
+  ret (subs st s) = true -> cleared (subs st s) = true -> smu (subs st s) = None ->
+  exists st', run VFixed [(TSub s j, L0); (TSub s j, L0); (TSub s j, L0)] st = Some st' /\
+     kp st' s j = KIdle /\ ks st' s j = r /\ same_but st st' s j.
+Proof. intros st s j r R. apply close_idempotent. apply reach_inv; auto. Qed.
+
+(* exactly one real close per subscription: a Close that gets past the nil test finds done open and the
+   entry present, so it closes done once and ch once; afterwards [cleared] is set for good and every
+   later Close takes the no-op path *)
+Theorem topic_close_once : forall st s j, topic_reach st ->
+  (kp st s j = KClose XCloseDone -> done (subs st s) = false) /\
+  (kp st s j = KClose XUnsub -> in_map (subs st s) = true -> closed (subs st s) = false) /\
+  (forall t l st' br, step VFixed st t l = Some (st', br) ->
+     (cleared (subs st s) = true -> cleared (subs st' s) = true) /\
+     (done (subs st s) = true -> done (subs st' s) = true)).
+Proof.
+  intros st s j R. pose proof (reach_inv _ R) as I. split; [|split].
+  - intros Hk. pose proof (i_pc _ I _ _ _ Hk) as Hx. cbn in Hx. tauto.
+  - intros _ Hm. apply (i_map _ I _ Hm).
+  - intros t l st' br S. destruct (step_mono _ _ _ _ _ _ S s) as (A & B & _). auto.
+Qed.
+
+Lemma reachable_trans_run : forall v st0 sched st st', reachable v st0 st -> run v sched st = Some st' ->
+  reachable v st0 st'.
+Proof.
+  induction sched as [|[t l] r IH]; cbn; intros st st' R H.
+  - inversion H; subst; auto.
+  - destruct (step v st t l) as [[st1 br]|] eqn:E; [|discriminate].
+    apply (IH st1 st'); auto. eapply r_step; eauto.
+Qed.
+Lemma run_reachable : forall v sched st0 st, run v sched st0 = Some st -> reachable v st0 st.
+Proof. intros. eapply reachable_trans_run; eauto. constructor. Qed.
